@@ -230,7 +230,14 @@ impl<'a, 'b> Generator<'a, 'b> {
                     write!(self.out, "__CRASH(\"{}\")()", msg);
                 }
 
-                IR::Access(t, a, f) => iis!(self, t, "{}.{}", self.expand(a), f),
+                // A field can be assigned between here and where the value is
+                // used, so the read is never moved to its use site.
+                IR::Access(t, a, f) => {
+                    if self.usage_count.get(t).unwrap_or(&0) > &0 {
+                        let a = self.expand(a);
+                        write!(self.out, "local {} = {}.{}", t.format(), a, f);
+                    }
+                }
 
                 IR::Copy(t, a) => {
                     if self.usage_count.get(t).unwrap_or(&0) > &0 {
